@@ -28,6 +28,21 @@ def run_history(kind, data, ops, hist, use_path, tmpdir):
     rd = life.reader_of(kind, obj)
     out = []; problems = []
     closed = [False]
+    # every ZipFile the library opens on the input is seen here: none may be opened once the object is closed
+    import zipfile
+    orig_init = zipfile.ZipFile.__init__
+    def spy_init(self, file, *a, **k):
+        if closed[0] and (file is src_ or (isinstance(file, (str, os.PathLike)) and path and os.fspath(file) == path)):
+            problems.append(f'archive reopened after close (after step {len(out)})')
+        return orig_init(self, file, *a, **k)
+    zipfile.ZipFile.__init__ = spy_init
+    try:
+        return _run_history(kind, ops, names, hist, obj, rd, out, problems, closed, path)
+    finally:
+        zipfile.ZipFile.__init__ = orig_init
+
+
+def _run_history(kind, ops, names, hist, obj, rd, out, problems, closed, path):
 
     def fds():
         if not path: return 0
